@@ -2,6 +2,7 @@
 transactional producer, execution on the simulated cluster, TLC trace validation."""
 from __future__ import annotations
 
+import os
 import itertools
 import json
 import logging
@@ -43,7 +44,7 @@ PROPERTY AbortRecovers
 CHECK_DEADLOCK FALSE
 """)]
     for name, txt in cfgs:
-        p = tlc.SPEC / f"_gen_txn_{name}.cfg"
+        p = tlc.SPEC / f"_gen_txn_{name}_{os.getpid()}.cfg"
         p.write_text(txt)
         r = tlc.mc("MC_TxnProducer", p.name, workers=12, timeout=2400, coverage=(name == "safety"), heap="8g")
         p.unlink()
